@@ -169,6 +169,11 @@ def listener_cases(rnd, n):
                 for _ in range(rnd.randint(3, 6)):
                     body = b"".join(tg.metric_line(rnd, invalid_p=0.0, ws_p=0.0)[0] + b"\n" for _ in range(rnd.choice([1, 2, 5, 80, 200])))
                     grams.append(body[:60000])
+                if rnd.random() < 0.5:
+                    # a datagram that is one long line (a name with many tags), with and without the final newline
+                    for ln in rnd.sample([4090, 4097, 5000, 9000, 30000, 60000], 2):
+                        one = b"long." + b"x" * ln + b";tag=v 1 1500000000"
+                        grams.insert(rnd.randint(0, len(grams)), one + (b"\n" if rnd.random() < 0.5 else b""))
                 ops.append("udpreal %d %s" % (rnd.choice([0, 50, 300]), " ".join(tg.hx(g) for g in grams)))
             else:
                 s = b"".join(tg.metric_line(rnd, invalid_p=0.0, ws_p=0.0)[0] + b"\n" for _ in range(rnd.randint(2, 30)))
